@@ -117,6 +117,16 @@ def table_cases(name, tier):
         for x, y, z in itertools.product(A, repeat=3):
             for o in ("and", "or"):
                 yield {"a": [o, P(x), P(y)], "b": P(z)}
+    elif name == "str-group-pairs":
+        # every pair of ==-groups / !=-groups (and single atoms) on one string variable: group x group
+        lits = ["linux", "linux2", "win32", "darwin"] if tier == "quick" else ["linux", "linux2", "win32", "darwin", "win"]
+        eq = [{"var": "sys_platform", "op": "==", "val": l, "rev": False, "style": 0} for l in lits]
+        ne = [{"var": "sys_platform", "op": "!=", "val": l, "rev": False, "style": 0} for l in lits]
+        groups = [["or", P(x), P(y)] for x, y in itertools.combinations(eq, 2)] + [["and", P(x), P(y)] for x, y in itertools.combinations(ne, 2)]
+        groups += [["or", ["or", P(eq[0]), P(eq[1])], P(eq[2])], ["and", ["and", P(ne[0]), P(ne[1])], P(ne[2])]]
+        singles = [P(a) for a in eq[:2] + ne[:2]] + [P({"var": "sys_platform", "op": "in", "val": "linux win32", "rev": False, "style": 0})]
+        for a, b in itertools.product(groups + singles, repeat=2):
+            yield {"a": a, "b": b}
     elif name == "wide-with-neutral":
         yield from wide_special_cases(tier)
     elif name == "mixed-py-triples":
@@ -166,12 +176,12 @@ def wide_special_cases(tier):
 
 def tasks(tier, seed):
     global CASE_TIMEOUT
-    CASE_TIMEOUT = 4.0 if tier == "quick" else 15.0
+    CASE_TIMEOUT = 2.5 if tier == "quick" else 15.0
     n = 2400 if tier == "quick" else 48000
     shards = 48 if tier == "quick" else 192
     # slow, straggler-prone shards first
     t = [(MOD, "hyp", (n // shards, seed * 1_000_003 + i, tier)) for i in range(shards)]
-    for name, nsh in (("py-pairs", 32 if tier == "quick" else 64), ("rel-pairs", 4), ("str-triples", 32), ("extra-triples", 16), ("mixed-py-triples", 16), ("wide-with-neutral", 16)):
+    for name, nsh in (("py-pairs", 32 if tier == "quick" else 64), ("rel-pairs", 4), ("str-triples", 32), ("extra-triples", 16), ("mixed-py-triples", 16), ("wide-with-neutral", 16), ("str-group-pairs", 8)):
         for sh in range(nsh):
             t.append((MOD, "tables", (name, tier, sh, nsh)))
     return t
